@@ -6,11 +6,11 @@ from __future__ import annotations
 import ast
 
 from ..cfg import CFG, cond_strings
-from ..tutil import dict_from_zip, lin
+from ..tutil import dict_from_zip, lin, map_term, np_call
 from ..core import AnalysisError, const_value, walk_own
 from ..defuse import DefUse, Terms, show, walk_term
 from ..effects import WriterEvents
-from ..astutil import live
+from ..astutil import cond_terms, live, norm_cmp
 
 EXPLANATION = (
     "Static analysis of every concrete TabularDataReader / "
@@ -350,16 +350,62 @@ def _buffered(ctx):
             kw = dict(zip(("start", "end", "as_dataframe"), t[3]))
             kw.update(dict(t[4]))
             return {k: v for k, v in kw.items() if v != ("const", None)
-                    and not (k == "as_dataframe" and v == ("const", False))}
+                    and not (k == "as_dataframe" and v == ("const", False))
+                    and not (k == "start" and v == ("const", 0))}
         return None
+
+    BUFF = ("attr", SELF, "buffer")
+    LENB = ("call", "builtins.len", (BUFF,), ())
+    Tc = Terms(du, phi_vars=True)   # the buffer attribute as one variable
+
+    def sem_conds(node):
+        """canonical condition strings with single-assignment aliases of
+        plain attributes (a hoisted self.buffer_size) seen through"""
+        import copy
+
+        class Alias(ast.NodeTransformer):
+            def visit_Name(self, n):
+                if isinstance(n.ctx, ast.Load):
+                    ds = [d for d in du.defs_of(n)] if id(n) in getattr(
+                        du, "uses", {}) else []
+                    if len(ds) == 1 and ds[0].kind == "assign" and \
+                            isinstance(ds[0].value, ast.Attribute) and \
+                            ast.unparse(ds[0].value).startswith("self."):
+                        return copy.deepcopy(ds[0].value)
+                return n
+
+        out = set()
+        for test, outcome in cfg.necessary_conditions(node):
+            # resolve on the original nodes (def-use is keyed by identity)
+            mapping = {}
+            for nm in ast.walk(test):
+                if isinstance(nm, ast.Name) and isinstance(nm.ctx, ast.Load):
+                    try:
+                        ds = list(du.defs_of(nm))
+                    except Exception:
+                        ds = []
+                    if len(ds) == 1 and ds[0].kind == "assign" and \
+                            isinstance(ds[0].value, ast.Attribute) and \
+                            ast.unparse(ds[0].value).startswith("self."):
+                        mapping[nm.id] = ds[0].value
+            t2 = copy.deepcopy(test)
+
+            class Sub(ast.NodeTransformer):
+                def visit_Name(self, n):
+                    if isinstance(n.ctx, ast.Load) and n.id in mapping:
+                        return copy.deepcopy(mapping[n.id])
+                    return n
+            t2 = Sub().visit(t2)
+            out.update(cond_strings(t2, outcome))
+        return out
 
     appends = []
     for n in ast.walk(wb.node):
         if isinstance(n, ast.Call) and ast.unparse(n.func) == \
                 "self.writer.append_data" and len(n.args) == 1:
             appends.append((n, slice_call(T.of(n.args[0])),
-                            set(cfg.conditions(n))))
-    stores = [(st, T.of(v), set(cfg.conditions(st)))
+                            sem_conds(cfg.stmt_of(n))))
+    stores = [(st, T.of(v), sem_conds(st))
               for (r, a_, v, st) in du.attr_stores
               if r == "self" and a_ == "buffer"]
     FULL = "self.buffer_size <= len(self.buffer)"
@@ -415,10 +461,18 @@ def _buffered(ctx):
               + "; buffer resets: " + str([sorted(x[2]) for x in fs]),
               node=wb.node)
     bs = cls.methods["_buffer_slice"]
-    sl = [ast.unparse(n) for n in ast.walk(bs.node)
-          if isinstance(n, ast.Subscript) and isinstance(n.slice, ast.Slice)]
-    ctx.check(sorted(sl) == ["self.buffer.iloc[start:end]",
-                             "self.buffer[start:end]"],
+    bT = Terms(DefUse(prog, bs))
+    BUFT = ("attr", ("param", "self"), "buffer")
+    sl = []
+    for _r, rt_ in bT.returns():
+        for x in walk_term(rt_):
+            if isinstance(x, tuple) and x and x[0] == "sub" and \
+                    x[2][0] == "slice" and any(
+                        y == BUFT for y in walk_term(x[1])):
+                sl.append(x[2])
+    want_sl = ("slice", ("param", "start"), ("param", "end"),
+               ("const", None))
+    ctx.check(bool(sl) and all(x == want_sl for x in sl),
               "C13d-slice-bounds", bs,
               "both buffer kinds are sliced [start:end]", f"{sl}",
               node=bs.node)
@@ -460,7 +514,12 @@ def _buffered(ctx):
                 aug[0].value)))
     npa = [aT.of(n) for n in ast.walk(ap.node) if isinstance(n, ast.Call)
            and ast.unparse(n.func) in ("np.append", "numpy.append")]
-    ok_c = ok_c and len(npa) == 1 and npa[0][2] == (BUF, DATA)
+    def buf_or_fresh(t):
+        return all(x == BUF or (np_call(x) or ("",))[0] in (
+            "recarray", "empty", "zeros") for x in leaves(t))
+
+    ok_c = ok_c and len(npa) == 1 and len(npa[0][2]) == 2 and \
+        buf_or_fresh(npa[0][2][0]) and npa[0][2][1] == DATA
     ctx.check(ok_c, "C13d-append-order", ap,
               "new rows are placed behind the rows already buffered, for "
               "all three buffer kinds", "buffer concatenation order changed",
